@@ -378,11 +378,18 @@ def run(chk):
         chk.touched(et)
         if chk.require("(c) reader layout", "c|etld|lookup", cb is not None, where(et), "expected one public_suffix call"):
             chk.ob("(c) reader layout", "c|etld|empty-labels-rejected-before-lookup", ok, where(et, cb), wit)
+    # the other public lookup entry applies the same rejection
+    from .common import lookup_rejects_empty_labels
+    iet = p.method("public_suffix::ListProvider", "is_effective_tld")
+    if chk.require("(c) reader layout", "c|is_effective_tld", iet, CR, "ListProvider::is_effective_tld not found"):
+        ok2, ietv, cb2, wit2 = lookup_rejects_empty_labels(p, iet)
+        chk.touched(ietv)
+        chk.ob("(c) reader layout", "c|is_effective_tld|empty-labels-rejected-before-lookup", ok2, where(ietv, cb2) if cb2 is not None else where(ietv), wit2)
     walk_step_rules(chk, p, ps)
     chk.floor("(d)", 9)
     chk.floor("(a)", 3)
     chk.floor("(b)", 13)
-    chk.floor("(c)", 16)
+    chk.floor("(c)", 17)
     chk.rule_text = "obligations: one per well-formedness fact, per layout field, and one trie comparison covering every node of the compiled table and every rule of the .dat (counted in disagreements_checked)"
     chk.assumptions = ["x/net/idna ToASCII of the generator = per-label punycode (no mapping)", "the walk itself (wildcard/exception/implicit * handling) is not decided"]
 
